@@ -289,8 +289,8 @@ RULE_ADDENDA = {
     "C10": "One case in three goes on after the history: a second generated configuration (and keychain) is loaded into the running server and a second history runs on a new connection from the same address, judged by the second configuration. Odd START packets (any action/type/service/minor combination) are mostly logins, optionally without data, and three times in four are followed by what a prompted client would send: the user name if it was missing, then the right password. Authenticator variants include a hash option that is a well-formed hash with something behind it. One aborting CONTINUE in three is built so that its octets are also a well-formed START of an ASCII login that carries the right password. TestC10EnumCancelDuringLogin: a user whose hash has work factor 12; the server's context is cancelled 20, 60 and 150 ms after a PAP or ASCII password (right or wrong) went in: a wrong password is never answered PASS. TestC10EnumConcurrentLogins: eight simultaneous PAP or ASCII logins of one user from eight connections (work factor 12, so the checks overlap), right and wrong passwords mixed: PASS exactly for the right ones.",
     "C15": "The fixed policy's match lists contain empty and blank patterns. A third configuration C (secret configurations renamed so that nothing can be built, no filters) takes part in the reloads, and every lookup round also probes 10.1.9.7, which A and B deny and C cannot serve: any answer but a refusal mixes two configurations. A user with spare-capacity slices, own commands, five services and a group is authorized (command and session) during the reloads, and in half of the cases every document is pushed twice in a row. One case in three reloads by writing the document to a file and calling Load(path), as the file watcher does.",
     "C19": "One case in three (sequence number 3 or more) continues a session that was opened just before on the same connection and is waiting for its continuation. One case in eight is a body whose announced lengths exceed what is present by exactly 256 (one-octet lengths) or 65536 (two-octet lengths), under each layout of the type. Thorough adds native coverage-guided fuzzing (FuzzC19Seen): the bytes the server sees after removing its pad are the fuzz input, seeded with well-formed requests one or two bytes short or long; same classifier oracle. Sequence numbers run over all odd values 1..255. One case in two (of those that are key mismatches) has 1 to 200 octets of the client's next packet arrive in the same read, behind the mismatching packet.",
-    "C01": "Every value is also built the way callers build it - New<Type>(Set<Field>(...)...) for the header and the seven bodies - and must encode (bytes and error) exactly like the struct literal. Thorough adds FuzzC01Rapid: the same property with the generators' choices taken from a coverage-guided fuzzer's byte string (rapid.MakeFuzz). One field in six and one argument in eight is text that means something to a parser instead of generated octets: address literals in legal but non-canonical spellings (2001:DB8::1, 2001:db8:0:0:0:0:0:1, 010.001.002.003, zoned, mapped), padded and signed numbers, mixed-case names, padded, quoted and escape-like text (shared with C02, C03, C04). One authorization or accounting request in 25 has everything at its maximum at once: 254 or 255 arguments of 255 octets and text fields of 0, 1, 170, 171 or 255 octets (shared with C02 and C04). Encodings of 512 octets and more that the library returned are kept (the last eight) and compared with the model again after every later encode. TestC01EnumConcurrent: the round trip of every codec from 16 goroutines at once, each with values of its own (the largest of 40 generated per codec), 100 rounds.",
-    "C02": "One long argument list in six has 255 octets in every argument (bodies beyond 65536 octets, which the decoders accept). The argument rules of the authorization and accounting bodies (2..255 / 0..255 octets of US-ASCII) are stated in the harness, not read off the library's Validate, and before a value is judged its arguments pass through the decoders of the other argument-carrying bodies. Over-long argument lists also come in a sparse form: 256+ arguments, each as short as the type allows. Thorough adds native fuzzing: FuzzC02DecodeFirst (any bytes, any codec, decode-first oracle) and FuzzC02Rapid (encode-first property driven by the fuzzer through rapid.MakeFuzz). TestC02EnumConcurrent: the round trip of every codec from 16 goroutines at once, each with values of its own (the largest of 40 generated per codec), 100 rounds.",
+    "C01": "Every value is also built the way callers build it - New<Type>(Set<Field>(...)...) for the header and the seven bodies - and must encode (bytes and error) exactly like the struct literal. Thorough adds FuzzC01Rapid: the same property with the generators' choices taken from a coverage-guided fuzzer's byte string (rapid.MakeFuzz). One field in six and one argument in eight is text that means something to a parser instead of generated octets: address literals in legal but non-canonical spellings (2001:DB8::1, 2001:db8:0:0:0:0:0:1, 010.001.002.003, zoned, mapped), padded and signed numbers, mixed-case names, padded, quoted and escape-like text (shared with C02, C03, C04). One authorization or accounting request in 25 has everything at its maximum at once: 254 or 255 arguments of 255 octets and text fields of 0, 1, 170, 171 or 255 octets (shared with C02 and C04). Encodings of 512 octets and more that the library returned are kept (the last eight) and compared with the model again after every later encode. TestC01EnumConcurrent: the round trip of every codec from 64 goroutines at once, each with values of its own (the largest of 40 generated per codec, and argument lists of 200 to 255 entries), 40 rounds.",
+    "C02": "One long argument list in six has 255 octets in every argument (bodies beyond 65536 octets, which the decoders accept). The argument rules of the authorization and accounting bodies (2..255 / 0..255 octets of US-ASCII) are stated in the harness, not read off the library's Validate, and before a value is judged its arguments pass through the decoders of the other argument-carrying bodies. Over-long argument lists also come in a sparse form: 256+ arguments, each as short as the type allows. Thorough adds native fuzzing: FuzzC02DecodeFirst (any bytes, any codec, decode-first oracle) and FuzzC02Rapid (encode-first property driven by the fuzzer through rapid.MakeFuzz). TestC02EnumConcurrent: the round trip of every codec from 64 goroutines at once, each with values of its own (the largest of 40 generated per codec, and argument lists of 200 to 255 entries), 40 rounds.",
     "C09": "One script in six starts so high that one of its packets is numbered 255 (no reply to that one, nothing else changes); in multiplexed mode the packets of two sessions may reach the server in one read. The generated worlds include configured service values that cannot go on the wire (300 octets, not US-ASCII), so that a handler's first reply fails and its fallback reply is used. Half of the authorization sessions name one of the user's own configured services (own or through a group) as a session authorization, and are focused on the user with the most services, so that several sessions of one user ask for different services in either order. TestC09EnumScale: 6000 generated sessions (12000 in thorough) multiplexed on one connection with every first packet sent before any second one, each compared with its transcript alone. Keys that the tree under test has beyond the configuration schema the harness models - struct fields found by reflection over config.ServerConfig, option names found as string literals in the sources of cmds/server - are written into two generated documents in three with values of the field's type (on the unchanged tree: the four comment fields). One multiplexed case in four has a further session that takes the id of a one-packet session (authorization, accounting, PAP) that is over, on the same connection, while the others go on. TestC09EnumSlowLogin: an ASCII login whose prompts are answered over 16.5 s of real time (65 s in thorough) next to one-packet sessions on the same connection; the session alone is not paused.",
     "C14": "Hostile connections may have every Write fail from the start, or end in a read error instead of EOF. Policy requests also carry arguments that are no attribute-value pairs (no separator, only separators); every log call additionally goes through the reference logger of cmds/server/log. Keys that the tree under test has beyond the configuration schema the harness models - struct fields found by reflection over config.ServerConfig, option names found as string literals in the sources of cmds/server - are written into two generated documents in three with values of the field's type (on the unchanged tree: the four comment fields). Half of the accounting requests carry the standard attributes of RFC 8907 section 8 with values at the edges (0, negative, the limits of every integer width, text), half of those a stop record's task id, elapsed time and traffic counters. TestC14EnumStalledReaders: GOMAXPROCS+3 clients log in and never read their replies (writes to them block); a well-behaved client that logs in afterwards must be answered; if not, the verdict is taken from the goroutine dump (connection goroutines parked inside the server for a second, not on the harness). TestC14EnumAttributeEdges: accounting and authorization requests with every numeric standard attribute at every edge value, deterministic.",
     "C03": "Three cases in five are preceded by a warm-up exchange on the same connection with the other minor version, on the same or another session id. Client-write cases also go through Client.SendOnly and use Packet literals whose Header.Length is stale (0, 5, n+20, 65536): what is written must follow the body. One server-side case in four has the secret provider hand out keys that are slices of one buffer: the key of another connection, on which a complete exchange takes place first, lies directly in front of the key of the connection that is judged. TestC03EnumOverlap: two connections of one server; A's packet arrives as header, later body, and between the two a complete exchange takes place on B (sizes 96 to 65536 octets); both handlers must receive their cleartext.",
